@@ -78,6 +78,34 @@ def memberNodes (T : Tables) : Option Nat → List Nat → Option (List Node)
     let ok : Bool := Desc.f c != 0 || n.enc.nbits != -1 || (prev.map isSigDatawidth).getD false
     if ok then (memberNodes T (some c) cs).map (n :: ·) else none
 
+/-- `bufr_minimum_seq_length`: a lower bound of the bits the list takes in Section 4 whatever
+operators are in force; state `(dlyNext, dlyX, dlyDesc, dlyCnt)` -/
+def minSeqLoop : List Node → (Bool × Nat × Nat × Int) → Int → Int
+  | [], _, acc => acc
+  | n :: ns, (dlyNext, dlyX, dlyDesc, dlyCnt), acc =>
+    let fx := Desc.f n.desc
+    let x := Desc.x n.desc
+    if dlyDesc > 0 ∧ dlyCnt ≤ 0 then minSeqLoop ns (dlyNext, dlyX, dlyDesc - 1, dlyCnt) acc
+    else
+      let dlyDesc1 := if dlyDesc > 0 then dlyDesc - 1 else dlyDesc
+      if n.flags.skipped then minSeqLoop ns (dlyNext, dlyX, dlyDesc1, dlyCnt) acc
+      else
+        let dly : Bool × Nat × Nat × Int :=
+          if dlyNext ∧ fx = 0 ∧ x = 31 then (false, dlyX, dlyX, if n.hasVal then n.ival else -1)
+          else if fx = 1 ∧ Desc.y n.desc = 0 then (true, x, dlyDesc1, dlyCnt)
+          else (dlyNext, dlyX, dlyDesc1, dlyCnt)
+        let w : Int :=
+          if fx ≠ 0 ∨ n.enc.nbits ≤ 0 then 0
+          else match n.enc.type with
+            | .codetable | .flagtable => n.enc.nbits
+            | .ccitt => if x = 31 then n.enc.nbits else 8
+            | .numeric => if x = 31 then n.enc.nbits else 1
+            | .chngRef | .ieee => 1
+            | _ => 0
+        minSeqLoop ns dly (acc + w)
+
+def minSeqLength (ns : List Node) : Int := minSeqLoop ns (false, 0, 0, 0) 0
+
 mutual
 /-- `bufr_estimate_seq_length` with its running state: `(lastDesc, lastNbits)`, `(repDesc, repCnt)`
 and the delayed-replication tracking `(dlyNext, dlyX, dlyDesc, dlyCnt)` that makes the estimate a
@@ -130,7 +158,7 @@ def replDescriptors (T : Tables) : Nat → Nat → Option Nat → List Node → 
     let tooLong := match s4 with
       | some maxLen =>
         if count > 0 then
-          let len := estimateLoop T f (replicaOf T extra body 0) (0, 0) (0, 0) (false, 0, 0, 0) 0
+          let len := minSeqLength (replicaOf T extra body 0)
           decide (len * count / 8 > maxLen * 3)
         else false
       | none => false
